@@ -24,7 +24,7 @@ from mc import driver as D, corpus
 from mc.props.c09_se import run_se, run_inventory  # noqa: F401  (runner of the schedule-enumeration phase)
 
 PROP = 'C09'
-RULE = ('ES: BFS over Parser façade calls (set path W1/W2/W3, set entry cell fresh/reused/None, enable/disable safety, get, '
+RULE = ('ES: BFS over Parser façade calls (set path W1/W2/W3 (unsafe)/WC (cyclic: fails after loading), set entry cell fresh/reused/None, enable/disable safety, get, '
         'write) with de-duplication on (path, entry fields, safety, flags, cached-text hash, reused caller objects); every '
         'get/write compared with a fresh Parser holding the model settings; EE: text hash identical across PYTHONHASHSEED '
         'values (separate processes) and after any other workbook was translated first in the same process; SE: all 2-thread '
@@ -39,6 +39,8 @@ WORKBOOKS = {
     'W1': [('S', {'A1': '=B1+T!A1', 'B1': 2, 'C1': '=SUM(A1:B1)'}), ('T', {'A1': '=S!B1*2', 'B1': 5})],
     'W2': [('S', {'A1': '=B1+T!A1', 'B1': 20, 'C1': '=SUM(A1:B1)'}), ('U', {'A1': 9}), ('T', {'A1': '=S!B1*2', 'B1': 6})],
     'W3': [('S', {'A1': 'eval(1)', 'B1': '=1+1', 'C1': 3}), ('T', {'A1': 1, 'B1': 2})],
+    # loads and passes the safety check, but its translation fails (S!A1 <-> S!B1 is a cycle); entry e2 (T!A1) is not behind it
+    'WC': [('S', {'A1': '=B1+T!A1', 'B1': '=A1', 'C1': '=SUM(A1:B1)'}), ('T', {'A1': 4, 'B1': 5})],
 }
 EXTRA = {
     'W7': [corpus.sheet('D')],
@@ -77,7 +79,7 @@ def paths():
 
 
 # 'rewrite': the file behind the path of W1 gets other content and the SAME path is handed to the parser again
-OPS = [('path', 'W1'), ('path', 'W2'), ('path', 'W3'), ('rewrite', 'W1'), ('entry', 'e1', 'fresh'), ('entry', 'e2', 'fresh'),
+OPS = [('path', 'W1'), ('path', 'W2'), ('path', 'W3'), ('path', 'WC'), ('rewrite', 'W1'), ('entry', 'e1', 'fresh'), ('entry', 'e2', 'fresh'),
        ('entry', 'e2', 'reused'), ('entry', 'e3', 'reused'), ('entry', None, None), ('enable',), ('disable',), ('get',),
        ('write',)]
 
